@@ -215,7 +215,13 @@ def edge_provenance(fn, sb, target, depth=0):
         return None
     s = switch_subject(fn, sb)
     want_variant = want_bool = None
-    if s["kind"] == "discr" and s["variants"] and s["place"] is not None and not [e for e in s["place"][1] if e[0] != "deref"]:
+    outer = None
+    if s["kind"] == "discr" and s["variants"] and s["place"] is not None:
+        # `match r { Ok(None) => .. }`: the inner discriminant read is that of the payload `(r as Ok).0`
+        pr = [e for e in s["place"][1] if e[0] != "deref"]
+        if len(pr) == 2 and pr[0][0] == "downcast" and pr[1][0] == "field":
+            outer = (pr[0][1], pr[1][1])
+    if s["kind"] == "discr" and s["variants"] and s["place"] is not None and (outer is not None or not [e for e in s["place"][1] if e[0] != "deref"]):
         vals = [v for v, t in [(a[0], a[1]) for a in st["arms"]] if t == target]
         names = {s["variants"].get(v) for v in vals}
         if target == st["otherwise"]:
@@ -262,6 +268,11 @@ def edge_provenance(fn, sb, target, depth=0):
             return False
         for x in ds:
             alld.add(x[1])
+            if x[0] == "call" and callee_is(x[2]["callee"], "core::ops::try_trait::FromResidual::from_residual") and wanted:
+                # the value `?` returns on failure is an Err(..) / None
+                if wanted & {"Err", "None"}:
+                    out.add(x[1])
+                continue
             if x[0] == "call" and callee_is(x[2]["callee"], "core::ops::try_trait::Try::branch") and x[2]["args"] and wanted:
                 # ControlFlow::Continue <=> the operand was Ok / Some, Break <=> Err / None
                 yl = op_local(x[2]["args"][0])
@@ -299,7 +310,33 @@ def edge_provenance(fn, sb, target, depth=0):
             else:
                 return False
         return True
-    if not walk(fn.copy_root(root) if fn.single_def(root) else root, 0):
+    if outer is not None:
+        # the value switched on is the payload of variant `outer[0]` of root: only root's definitions that build that variant matter
+        r0 = fn.copy_root(root) if fn.single_def(root) else root
+        ds0 = fn.defs.get(r0, [])
+        if not ds0 or 1 <= r0 <= fn.argc:
+            return None
+        for x in ds0:
+            alld.add(x[1])
+            if x[0] == "call" and callee_is(x[2]["callee"], "core::ops::try_trait::FromResidual::from_residual"):
+                # `?` handing the failure on: an Err(..) / None, never the Ok / Some variant looked at here
+                if outer[0] in ("Ok", "Some", "Continue"):
+                    continue
+                return None
+            if x[0] == "assign" and x[3]["k"] == "aggregate" and x[3].get("variant") is not None:
+                if x[3]["variant"] != outer[0]:
+                    continue
+                if outer[1] >= len(x[3]["ops"]):
+                    return None
+                o_ = x[3]["ops"][outer[1]]
+                if o_["k"] == "const":
+                    return None
+                l_ = op_local(o_)
+                if l_ is None or not walk(l_, 1):
+                    return None
+            else:
+                return None
+    elif not walk(fn.copy_root(root) if fn.single_def(root) else root, 0):
         return None
     if not out:
         return None
